@@ -5,7 +5,7 @@ identities of the objects involved). Items that were already there before the op
 must be explained by the region predicate of a listed known finding (then it is attributed to it) — otherwise it is
 reported as a violation with the history as witness.
 """
-from harness.c09_ops import RANK, ALLOWED_IN, op_to_json, op_line, cssmods, Spec
+from harness.c09_ops import RANK, ALLOWED_IN, op_to_json, op_line, cssmods, Spec, BROKEN_TAILS
 
 CLAUSE = {
     'order': 'rules are ordered @charset < @import < @namespace < @variables < style/@media/@page/@font-face '
@@ -20,7 +20,16 @@ CLAUSE = {
     'reparse': 'serialising and reparsing the edited sheet keeps every rule (same tree of rule types)',
     'outcome': 'an edit either returns or raises a DOM exception',
     'list': 'insertRule(CSSRuleList) inserts all rules or none: a refused list leaves the rule list as it was',
+    'parent': 'rule.parent (the parent node) is the containing rule of a nested rule and None otherwise',
+    'gonedecl': 'a declaration block that was replaced names no parent rule',
+    'goneprop': 'a property that was removed from its declaration block names no parent',
 }
+
+
+K_DECL = 'C09-replaced-declaration-keeps-parent'
+K_PROP = 'C09-removed-property-keeps-parent'
+K_PARENT = 'C09-rule-parent-not-maintained'
+KNOWN_OF_CLAUSE = {'gonedecl': K_DECL, 'goneprop': K_PROP, 'parent': K_PARENT}
 
 
 def items_of(st):
@@ -66,6 +75,32 @@ def items_of(st):
                         r.typeString, list(path), p.name, p.parent)
         if r.type == r.VARIABLES_RULE and r.variables.parentRule is not r:
             out[('link', id(r), 'variables.parentRule')] = 'variables.parentRule is %r' % (r.variables.parentRule,)
+    # the `parent` attribute of rules
+    for path, r, cont in st.walk():
+        if r.parent is not cont:
+            out[('parent', id(r), 'live')] = '%s at %s: parent is %r' % (r.typeString, list(path), r.parent)
+    for o in st.gone_roots:
+        if o.parent is not None:
+            out[('parent', id(o), 'gone')] = 'removed %s: parent is %r' % (o.typeString, o.parent)
+    # declaration blocks and properties that were replaced / removed: every block or property ever seen in a rule
+    # (live, removed or handed in) that is not the block of such a rule / in such a block any more
+    cur_decl, cur_prop = set(), set()
+    for o in list(st.tracked.values()):
+        d = getattr(o, 'style', None) if o.type in (o.STYLE_RULE, o.PAGE_RULE, o.FONT_FACE_RULE, o.MARGIN_RULE) else None
+        if d is None:
+            continue
+        cur_decl.add(id(d))
+        st.decls[id(d)] = (d, o.typeString)
+        for p in d.getProperties(all=True):
+            cur_prop.add(id(p))
+            st.props[id(p)] = (p, o.typeString)
+    for i, (d, owner) in st.decls.items():
+        if i not in cur_decl and d.parentRule is not None:
+            out[('gonedecl', i)] = 'declaration block replaced in a %s: parentRule is %r' % (owner, d.parentRule)
+    for i, (p, owner) in st.props.items():
+        # a property names a block that does not hold it (a block that was itself replaced still holds its properties)
+        if i not in cur_prop and p.parent is not None and not any(q is p for q in p.parent.getProperties(all=True)):
+            out[('goneprop', i)] = 'property %s removed from the block of a %s: parent is %r' % (p.name, owner, p.parent)
     # removed objects
     for o in st.gone_roots:
         if o.parentRule is not None:
@@ -78,6 +113,7 @@ def items_of(st):
 class Oracle:
     def __init__(self, ctx):
         self.ctx = ctx
+        self.active_known = set()
 
     # -- facts of the state before the operation that the region predicates need
     def before(self, st, op, mode):
@@ -99,7 +135,9 @@ class Oracle:
         return pre
 
     def witness(self, ops, raising):
-        return {'ops': [op_to_json(o) for o in ops], 'raising': raising, 'lines': [op_line(o) or 'decl %s %s' % (list(o[1]), o[2]) for o in ops]}
+        return {'ops': [op_to_json(o) for o in ops], 'raising': raising,
+                'lines': [(op_line(o) or 'decl %s %s' % (list(o[1]), o[2])) +
+                          (' tail=%r' % BROKEN_TAILS[o[3] % len(BROKEN_TAILS)] if o[0] == 'nbroken' else '') for o in ops]}
 
     def after(self, st, op, out, pre, ops, raising):
         ctx = self.ctx
@@ -132,9 +170,12 @@ class Oracle:
 
     # -- region predicates of the known findings ------------------------------------------------
     def explain(self, k, st, op, out, pre):
-        """all findings this check had listed are fixed in the code (known/C09.json, status "fixed"): no new
-        violation item is attributed to a finding any more"""
-        return None
+        """the findings of the first rounds are fixed in the code (known/C09.json, status "fixed") and nothing is
+        attributed to them. The three findings about `parent`, replaced declaration blocks and removed properties are
+        attributed only while their witness still reproduces on the tree under test (probed at start): once the
+        fixes are in, a regression is a violation."""
+        f = KNOWN_OF_CLAUSE.get(k[0])
+        return f if f in self.active_known else None
 
     def check_index(self, st, op, out, pre, ops, raising):
         t = op[0]
